@@ -6,7 +6,8 @@
 EXTENDS Discovery, Json
 
 CONSTANTS MaxCookie,       \* cookies 1..MaxCookie can be issued
-          MaxOps           \* length of a behaviour (replay configuration)
+          MaxOps,          \* length of a behaviour (replay configuration)
+          Lifetimes        \* lifetimes can be bound (to the id of any object that exists or has existed)
 
 \* the entries of the drivers (harness/crates/bus-driver/src/discovery.rs entry_specs, plus a bare any-object entry)
 MCKeys == 0..5
@@ -27,11 +28,12 @@ Ops == {[op |-> "co", o |-> o, s |-> 0, c |-> Fresh, scope |-> ""] : o \in ObjU}
        \cup {[op |-> "cs", o |-> o, s |-> s, c |-> Fresh, scope |-> ""] : o \in ObjU, s \in SvcU}
        \cup {[op |-> "ds", o |-> o, s |-> s, c |-> 0, scope |-> ""] : o \in ObjU, s \in SvcU}
        \cup {[op |-> x, o |-> 0, s |-> 0, c |-> 0, scope |-> sc] : x \in {"build", "restart"}, sc \in {"all", "current"}}
+       \cup {[op |-> "lt", o |-> x[1], s |-> 0, c |-> x[2], scope |-> ""] : x \in (IF Lifetimes THEN d.ocs ELSE {})}
 
 Init == d = DInit /\ hist = <<>> /\ chk = TRUE
 Next == \E op \in Ops :
           /\ Enabled(d, op)
-          /\ op.c # 0 => op.c <= MaxCookie
+          /\ (op.c # 0 /\ op.op # "lt") => op.c <= MaxCookie
           /\ Len(hist) < MaxOps
           /\ d' = Do(d, op)
           /\ hist' = Append(hist, op)
